@@ -124,3 +124,133 @@ def check_C10(tier):
                      "contents and start offsets are valid UTF-8 / on character boundaries"]
     c.exhaustive = True
     return c.finish()
+
+
+# =====================================================================================  Engine-based properties
+ENGINE_DEVS = ["LimitPerFile", "LimitAfterEmit", "LimitSkipsNullRows", "LimitNoTruncate", "JoinNullKeys", "AggEmptyGroupDropped",
+               "NumVariantOrder", "FloatNanOrd", "FloatHashBits", "InNullEq", "UncheckedArith", "SubscriptUnderflow"]
+ENGINE_INVS = ["TypeOK", "BatchRefinesSem", "IncrRefinesSem", "IncrSelectRefinesSem", "ConsumedBound", "PrintedIsPrefix",
+               "InterruptFreeze", "InterruptedAggregate", "NoErrorFromInterrupt"]
+ENGINE_WHAT = reg("sqlgrep engine vs Engine.tla (replay)", "engine")
+
+
+def engine_consts(dev, menu, lines, maxlines, maxfiles, joinsets, modes, intrs, tdefs):
+    # `<-` substitutions are written through the raw-string path of cfg_text
+    return {"Dev": {q(d) for d in dev}, "Statements": "<-" + menu, "TableDefs": {q(t) for t in tdefs},
+            "LineSet": "<-" + lines, "MaxLines": maxlines, "MaxFiles": maxfiles, "JoinLineSets": "<-" + joinsets,
+            "Modes": {q(m) for m in modes}, "InterruptPoints": "<-" + intrs}
+
+
+def engine_run(c, name, menu, lines="Lines3", maxlines=3, maxfiles=2, joinsets="JoinSets", modes=("batch",), intrs="NoIntr",
+               tdefs=("plain", "knn", "vdef"), invs=ENGINE_INVS, props=("NoiseIsStutter",), timeout=1500):
+    """One bounded configuration of Engine.tla: (1) TLC checks the property invariants on the Ideal model,
+    (2) every behaviour of the as-built model (Ideal + open findings) is replayed on the real code."""
+    dev = vlib.open_devs(ENGINE_DEVS)
+    consts = lambda d: engine_consts(d, menu, lines, maxlines, maxfiles, joinsets, modes, intrs, tdefs)
+    if not dev:
+        r = tlc("MC_Engine", cfg_text(constants=consts([]), invariants=list(invs) + ["Emit"], properties=props), "engine-" + name, workers=W, timeout=timeout)
+        expect_holds(r, "Engine %s (Ideal)" % name)
+        c.add_tlc(r)
+    else:
+        r0 = tlc("MC_Engine", cfg_text(constants=consts([]), invariants=list(invs), properties=props), "engine-ideal-" + name, workers=W, timeout=timeout)
+        expect_holds(r0, "Engine %s (Ideal)" % name)
+        c.add_tlc(r0)
+        r = tlc("MC_Engine", cfg_text(constants=consts(dev), invariants=["TypeOK", "Emit"]), "engine-" + name, workers=W, timeout=timeout)
+        expect_holds(r, "Engine %s (as built: %s)" % (name, ",".join(dev)))
+        c.add_tlc(r)
+    if r.replays == 0:
+        raise ToolError("TLC produced no behaviours to replay for " + name)
+    rep = vh_replay("engine", r.replay_path, "engine-" + name, env_extra={"TZ": "UTC"})
+    c.add_report(rep, ENGINE_WHAT)
+    c.extra.setdefault("configs", []).append({"name": name, "menu": menu, "lines": lines, "max_lines": maxlines, "max_files": maxfiles,
+                                              "modes": list(modes), "interrupts": intrs, "behaviours_replayed": rep.get("cases", 0),
+                                              "states": r.distinct})
+    return rep
+
+
+def engine_witness(c, dev_name, menu, lines="Lines3", maxlines=3, joinsets="JoinSets", invs=("BatchRefinesSem",)):
+    """an open finding must be a real counterexample of the property in the model"""
+    if dev_name not in vlib.open_devs(ENGINE_DEVS):
+        return
+    r = tlc("MC_Engine", cfg_text(constants=engine_consts([dev_name], menu, lines, maxlines, 1, joinsets, ("batch",), "NoIntr", ("plain",)),
+                                  invariants=list(invs)), "engine-witness-" + dev_name, workers=W)
+    if not expect_witness(r, dev_name):
+        raise ToolError("deviation %s does not break the property in the model (menu %s): stale finding?" % (dev_name, menu))
+    c.notes.append("TLC witness for %s: %s violated" % (dev_name, r.violated))
+
+
+ENGINE_ASSUME = ["statements are rendered fully parenthesised and parsed by the real parser; the value of C13/C20 is checked separately",
+                 "table t(k TEXT, v INT) over lines 'k=<word> v=<int>' and its NOT NULL / DEFAULT variants stand for all tables (extraction itself: C01/C02)",
+                 "semantic comparison under TZ=UTC", "JSON records are decoded with serde_json (trusted)"]
+ENGINE_RULE = ("TLC enumerates statement (menu) x table variant x every input of <= MaxLines lines over the line alphabet x every split into files "
+               "x joined file x mode x interrupt point; each behaviour is executed on the real FileExecutor / ExecutionEngine and compared record by record, "
+               "status and lines consumed. Non-trivial = at least one record is produced and the model predicts the outcome; distinct by the whole case.")
+
+
+def check_C04(tier):
+    c = Check("C04", tier, "model_checking")
+    t = tier == "thorough"
+    engine_witness(c, "AggEmptyGroupDropped", "CoreMenu", lines="LinesAgg")
+    engine_run(c, "agg", "AggMenu", lines="LinesAgg", maxlines=4 if t else 3, maxfiles=1, tdefs=("plain",) if not t else ("plain", "knn", "vdef"), modes=("batch",))
+    c.rule, c.assumptions, c.exhaustive = ENGINE_RULE, ENGINE_ASSUME, True
+    return c.finish()
+
+
+def check_C03(tier):
+    c = Check("C03", tier, "model_checking")
+    t = tier == "thorough"
+    engine_run(c, "select", "SelectMenu", lines="Lines4", maxlines=4 if t else 3, maxfiles=2 if t else 1, modes=("batch", "incr"))
+    c.rule, c.assumptions, c.exhaustive = ENGINE_RULE, ENGINE_ASSUME, True
+    return c.finish()
+
+
+def check_C05(tier):
+    c = Check("C05", tier, "model_checking")
+    t = tier == "thorough"
+    engine_run(c, "join", "JoinMenu", lines="LinesJ", maxlines=4 if t else 3, maxfiles=1, tdefs=("plain", "knn") if t else ("plain",))
+    c.rule, c.assumptions, c.exhaustive = ENGINE_RULE, ENGINE_ASSUME, True
+    return c.finish()
+
+
+def check_C07(tier):
+    c = Check("C07", tier, "model_checking")
+    t = tier == "thorough"
+    engine_run(c, "limit", "LimitMenu", lines="Lines3", maxlines=4 if t else 3, maxfiles=3 if t else 2, tdefs=("plain", "vdef") if t else ("plain",))
+    engine_run(c, "limit-join", "LimitJoinMenu", lines="LinesJ", maxlines=3, maxfiles=2, tdefs=("plain",))
+    c.rule, c.assumptions, c.exhaustive = ENGINE_RULE, ENGINE_ASSUME, True
+    return c.finish()
+
+
+def check_C08(tier):
+    c = Check("C08", tier, "model_checking")
+    t = tier == "thorough"
+    engine_run(c, "distinct", "DistinctMenu", lines="Lines4", maxlines=5 if t else 4, maxfiles=1, modes=("batch", "incr"), tdefs=("plain",))
+    c.rule, c.assumptions, c.exhaustive = ENGINE_RULE, ENGINE_ASSUME, True
+    return c.finish()
+
+
+def check_C11(tier):
+    c = Check("C11", tier, "model_checking")
+    t = tier == "thorough"
+    engine_run(c, "incr", "CoreMenu", lines="LinesAgg", maxlines=5 if t else 4, maxfiles=1, modes=("incr",), tdefs=("plain", "knn"))
+    engine_run(c, "incr-agg", "AggMenu", lines="LinesAgg", maxlines=3, maxfiles=1, modes=("incr",), tdefs=("plain",))
+    c.rule, c.assumptions, c.exhaustive = ENGINE_RULE, ENGINE_ASSUME, True
+    return c.finish()
+
+
+def check_C19(tier):
+    c = Check("C19", tier, "model_checking")
+    t = tier == "thorough"
+    engine_run(c, "interrupt", "CoreLimitMenu", lines="Lines3", maxlines=4 if t else 3, maxfiles=2, intrs="AllIntr", tdefs=("plain",))
+    engine_run(c, "interrupt-join", "JoinMenu", lines="LinesJ", maxlines=2, maxfiles=1, joinsets="JoinSetsLong", intrs="JoinIntr", tdefs=("plain",))
+    c.rule, c.assumptions, c.exhaustive = ENGINE_RULE, ENGINE_ASSUME, True
+    return c.finish()
+
+
+def check_C06(tier):
+    c = Check("C06", tier, "model_checking")
+    t = tier == "thorough"
+    engine_run(c, "noise", "CoreLimitMenu", lines="LinesNoise", maxlines=4 if t else 3, maxfiles=1, modes=("batch", "incr"))
+    engine_run(c, "noise-join", "JoinMenu", lines="LinesNoise", maxlines=2, maxfiles=1, tdefs=("plain", "knn"))
+    c.rule, c.assumptions, c.exhaustive = ENGINE_RULE, ENGINE_ASSUME, True
+    return c.finish()
